@@ -3,6 +3,7 @@ LEAN_MODULES = ["Sif.Props.C20"]
 EXTRACT = [{"group": "disp", "passes": ["dispconsts"]}]
 FAMILIES = [
     {"name": "mint", "family": "mint", "group": "disp", "driver": "drv_issue", "n_quick": 6000, "n_thorough": 60000, "seeds_thorough": 3},
+    {"name": "rewards", "family": "rewards", "group": "disp", "driver": "drv_issue", "n_quick": 6000, "n_thorough": 60000, "seeds_thorough": 4},
 ]
 RULE = ("mint: real dispensation BeginBlocker on the real keeper/bank, block histories with the counter started 0..6 blocks below the cap "
         "(remainders 0, 1, perBlock-1, random), at the cap, above it, at 0, absent; ecosystem pool blocked (send fails) in half of the runs; "
